@@ -738,7 +738,9 @@ fn backpressure(res: &mut PartResult, buffer: Option<usize>) {
         std::thread::sleep(Duration::from_millis(10));
     }
     drop(extra_slow);
-    let mut judged: Vec<(&str, &Client, bool)> = vec![("fast", &fast_c, true), ("slow", &slow_c, false)];
+    // with no buffer limit configured nothing may ever be discarded, for the stalled client either: once it reads again it
+    // receives every frame
+    let mut judged: Vec<(&str, &Client, bool)> = vec![("fast", &fast_c, true), ("slow", &slow_c, buffer.is_none())];
     for c in &extra_fast {
         judged.push(("fast(extra)", c, true));
     }
@@ -754,7 +756,7 @@ fn backpressure(res: &mut PartResult, buffer: Option<usize>) {
                 if must_have_all && seqs.len() as u64 != n + 200 {
                     let have: std::collections::BTreeSet<u64> = seqs.iter().cloned().collect();
                     let missing: Vec<u64> = (1..=n + 200).filter(|x| !have.contains(x)).take(10).collect();
-                    res.violation("emitted-frame-not-delivered", format!("the fast client received {} of {} frames while another client was stalled; missing sequence numbers (first 10): {:?}", seqs.len(), n + 200, missing), json!({"backpressure": true}));
+                    res.violation("emitted-frame-not-delivered", format!("the {} client received {} of {} frames (buffer_size({:?}); {}); missing sequence numbers (first 10): {:?}", name, seqs.len(), n + 200, buffer, if name == "slow" { "no limit is configured, so nothing may be discarded for a client that stalls and later reads again" } else { "another client was stalled meanwhile" }, missing), json!({"backpressure": true}));
                 }
                 if !must_have_all {
                     res.notes.push(if (seqs.len() as u64) < n + 200 { "real back-pressure reached: older frames were discarded for the slow client".into() } else { "no frame was discarded for the slow client (socket buffers absorbed everything)".to_string() });
@@ -946,7 +948,7 @@ fn main() {
     driver::main(CheckDef {
         prop: "C11",
         level: "model_checking",
-        rule: "every well-formed history of at most N events over {connect(i), connect(i) immediately followed by an emit (no barrier: the accept and the metric can share a wake-up), read(i), close(i), reset(i) (SO_LINGER 0), describe(counter | gauge + histogram), emit(10 operations incl. labels, a zero increment / absolute, a NaN gauge value, an infinite sample)} with 2-3 clients, for buffer_size in {Some(1), Some(2), Some(1024), None}, against a fresh real exporter (public TcpBuilder::build) with a quiescence barrier after every event (wake; wait for a fully processed batch; twice), plus for fan-out histories every assignment of at most d deviating answers {Short(1), Short(5), WouldBlock} to the exporter's first write calls (deviation-bounded, default Full); every client's byte stream is decoded by an independent protobuf wire parser: whole frames only, metadata known at connect first, then exactly the emits issued while connected, in order, intact, no duplicates (with a small buffer and held-back writes only older frames may be missing); the same histories with every contiguous run of >= 2 events delivered to the transport thread as ONE poll batch (the thread is parked between two polls by a hook while the harness causes them; runs whose channel traffic exceeds the buffer excluded); one scripted real back-pressure history per buffer config; per buffer config 12 rounds of two back-to-back emits awaited with no other wake-up source (lost wake-ups); distinct = distinct per-client delivery summaries",
+        rule: "every well-formed history of at most N events over {connect(i), connect(i) immediately followed by an emit (no barrier: the accept and the metric can share a wake-up), read(i), close(i), reset(i) (SO_LINGER 0), describe(counter | gauge + histogram), emit(10 operations incl. labels, a zero increment / absolute, a NaN gauge value, an infinite sample)} with 2-3 clients, for buffer_size in {Some(1), Some(2), Some(1024), None}, against a fresh real exporter (public TcpBuilder::build) with a quiescence barrier after every event (wake; wait for a fully processed batch; twice), plus for fan-out histories every assignment of at most d deviating answers {Short(1), Short(5), WouldBlock} to the exporter's first write calls (deviation-bounded, default Full); every client's byte stream is decoded by an independent protobuf wire parser: whole frames only, metadata known at connect first, then exactly the emits issued while connected, in order, intact, no duplicates (with a small buffer and held-back writes only older frames may be missing); the same histories with every contiguous run of >= 2 events delivered to the transport thread as ONE poll batch (the thread is parked between two polls by a hook while the harness causes them; runs whose channel traffic exceeds the buffer excluded); one scripted real back-pressure history per buffer config (with no limit configured the stalled client, too, receives every frame once it reads again); per buffer config 12 rounds of two back-to-back emits awaited with no other wake-up source (lost wake-ups); distinct = distinct per-client delivery summaries",
         assumptions: &["kernel / mio readiness order inside one epoll batch is not enumerated: one harness event at a time, exporter run to quiescence in between", "Interrupted is not in the write-answer alphabet (a non-blocking socket write cannot return EINTR on Linux)", "every history ends with one extra emit so that frames held back by an injected short or would-block answer are driven out"],
         parts,
         run,
